@@ -44,7 +44,7 @@ def gen_case(seed, tier):
 
 def _gen_case(seed, tier):
     return history.gen_history(seed, 'c15', max_users=2, nops=(4, 24) if tier == 'thorough' else (4, 14), destructive=True, reads=True, filters=True,
-                               p_snapshot=0.4)
+                               p_snapshot=0.4, many=0.08)
 
 
 def run_case(case):
